@@ -480,7 +480,11 @@ FaultStep(e) ==
       \* STRICT: the fault-aware concrete operator reproduces the post-unwind state (hasher panics of map operations)
       strictKnown == e.pn = "hash" /\ hd.kind = "map" /\ e.op \notin {"clone", "clone_from", "eq", "get_many_mut", "get_many_kv_mut", "iter", "drop"}
       expR == MapOp(e, pre, ph, [pa |-> e.fk, hs |-> <<>>])
-      strictOK == strictKnown => (expR.st = "unwound" /\ (t \in live => expR.t = obsT[t]))
+      \* clone_from whose element Clone panics: the inner guard drops the clones made so far, the outer guard leaves the
+      \* target empty with the SOURCE's bucket count (clear_no_drop after the reallocation); clone(): the target is untouched
+      cloneStrict == (e.pn = "clone" /\ e.op = "clone_from" /\ t \in live /\ u >= 1 /\ u <= Len(tb) /\ tb[u].mask # 0)
+                       => obsT[t] = NewTable(tb[u].mask + 1, hd.es)
+      strictOK == (strictKnown => (expR.st = "unwound" /\ (t \in live => expR.t = obsT[t]))) /\ cloneStrict
   IN /\ IF mine # {} THEN Fail(l, {b[1] : b \in mine}) ELSE TRUE
      /\ IF bad # {} /\ mine = {} THEN TLCSet(46, TLCGet(46) + 1) /\ (IF TLCGet(47) = <<>> THEN TLCSet(47, <<l, e.op, {b[1] : b \in bad}>>) ELSE TRUE) ELSE TRUE
      /\ IF bad = {} /\ ok /\ ~strictOK THEN TLCSet(42, TLCGet(42) + 1) /\ (IF TLCGet(45) = <<>> THEN TLCSet(45, <<l, e.op>>) ELSE TRUE) ELSE TRUE
